@@ -20,6 +20,8 @@ ENGINES = {
     "C19": ["simdst.engines.c19_rand"],
 }
 
+ENGINE_NAMES = {"simdst.engines.c07_pool": "A", "simdst.engines.c07_hist": "B", "simdst.engines.c08_pool": "A8", "simdst.engines.c08_hist": "B8", "simdst.engines.c09_hist": "B9", "simdst.engines.c12_hist": "H", "simdst.engines.c14_sk": "K", "simdst.engines.c19_rand": "R"}
+
 SHRINK_BUDGET = {"quick": 20.0, "thorough": 180.0}
 BATCH_WALL = {"quick": 150.0, "thorough": 3600.0}
 
@@ -47,10 +49,10 @@ def check(prop, tier, verif_seed, only_engine=None, runs_override=None, out=prin
     rules, comps_real, comps_stub = [], [], []
     harness_fail = False
 
+    if only_engine:
+        mods = [m for m in mods if m.rsplit(".", 1)[1] == only_engine or ENGINE_NAMES.get(m) == only_engine]
     for modname in mods:
         engine = driver._load_engine(modname)
-        if only_engine and engine.NAME != only_engine:
-            continue
         n_runs = runs_override or engine.RUNS[tier]
         rules.append(f"[{engine.NAME}] {engine.RULE}")
         comps_real += [c for c in engine.COMPONENTS["real"] if c not in comps_real]
@@ -102,7 +104,7 @@ def check(prop, tier, verif_seed, only_engine=None, runs_override=None, out=prin
                     seen_inv.add(inv)
                     violations.append((engine, o["run_index"], inv, det, o["choices"]))
                     # stop exploring soon: a violation has been found
-                    deadline[0] = min(deadline[0], time.monotonic() + 5.0)
+                    deadline[0] = min(deadline[0], time.monotonic() + 1.0)
 
         farm = driver.Farm(modname, tier, verif_seed, jobs, engine.RUN_WALL_CAP)
         try:
